@@ -13,6 +13,15 @@ ASSUMPTIONS = ["single-byte (ASCII) rune terminals", "Go ints unbounded", "Right
                "grammars whose ambiguity exceeds the per-case budget are cut and counted (cut_by_budget)"]
 
 
+def k1_shape(rules, root):
+    """a RightTrim above a reference or a Memoize: the real code moves the reader position of cached nodes in place
+    (known finding K1, listed under C07); the value-level engine model does not describe such grammars"""
+    for e in G.itertools.chain(*[G.walk(r) for r in rules + [root]]):
+        if e[0] == 'rtrim' and any(x[0] in ('ref', 'memo') for x in G.walk(e[2])):
+            return True
+    return False
+
+
 def unprod(rules, root):
     return not G.all_productive(rules, root)
 
